@@ -7,7 +7,7 @@ set -u
 patch=$1; shift
 copy=$(mktemp -d /tmp/mutrepo-XXXXXX)
 cp -r /repo/. "$copy"/
-trap 'rm -rf "$copy"; git -C /verif checkout -- evidence 2>/dev/null' EXIT
+trap 'rm -rf "$copy" /tmp/verif-evidence-*' EXIT
 git -C "$copy" apply "$patch" || { echo "patch does not apply"; exit 2; }
 ( cd "$copy" && GOFLAGS=-mod=mod GOPROXY=off GOSUMDB=off go build ./... && go test -vet=off -count=1 . 2>&1 | tail -1 )
 for id in "$@"; do
